@@ -45,3 +45,11 @@ package ledger
 //@     conway.MinProtocolVersionConway <= conway.MaxProtocolVersionConway &&
 //@     dijkstra.MinProtocolVersionDijkstra <= dijkstra.MaxProtocolVersionDijkstra
 //@   props C36
+
+// Era dispatch into the per-era block / header decoders (reflection-driven library decoding inside):
+// callers under contract treat these two entry points as opaque - nothing is promised about the
+// result, and the whole heap is forgotten at the call.
+//@ func NewBlockFromCbor(blockType, data, config) (b, err)
+//@   nobody
+//@ func NewBlockHeaderFromCbor(blockType, data) (h, err)
+//@   nobody
